@@ -265,6 +265,93 @@ def eval_fp_cases(ck, name, cases):
     return ids_of(m.group(1)), out
 
 
+def cjv(P, n):
+    t = n["t"]
+    if t == "s":
+        return "(JStr %s)" % P.s(unhex(n.get("s", "")))
+    if t == "r":
+        return "(JRaw %s)" % P.s(unhex(n.get("s", "")))
+    if t == "o":
+        return "(JObj %s)" % coq_list(["(%s, %s)" % (P.s(unhex(kv["k"])), cjv(P, kv["v"])) for kv in n.get("kv") or []])
+    return "(JArr %s)" % coq_list([cjv(P, x) for x in n.get("l") or []])
+
+
+def cjspec(P, params):
+    if not params:
+        return "JsonAll"
+    return "(JsonParams %s)" % coq_list(["(%s, %s)" % (P.s(p["label"]), coq_list(
+        [("PKey %s" % P.s(unhex(x.get("key", "")))) if x["str"] else ("PIdx %s" % P.z(x["idx"])) for x in p["path"]])) for p in params])
+
+
+def eval_json_cases(ck, name, rows):
+    P = Pool()
+    body = ";\n  ".join("{| j_id := %d; j_spec := %s; j_tree := %s; j_obs := %s |}" % (
+        i, cjspec(P, r.get("params")), ("(Some %s)" % cjv(P, r["tree"])) if r.get("tree") else "None", P.l(r.get("kv") or {}))
+        for i, r in rows)
+    txt = (PRELUDE.replace("model.InternalEngine.", "model.InternalEngine model.InternalJson.") + "\n".join(P.defs) +
+           "\nDefinition cases : list jcase := [\n  " + body + "].\n"
+           "Definition M := Eval vm_compute in json_mismatches cases.\nPrint M.\n"
+           "Definition V := Eval vm_compute in json_spec_violations cases.\nPrint V.\n")
+    rc, out = ck.coq_eval(name, txt)
+    if rc != 0:
+        return None, None, out
+    flat = " ".join(out.split())
+    m = re.search(r"M = \[(.*?)\]\s*: list Z", flat)
+    v = re.search(r"V = \[(.*?)\]\s*: list Z", flat)
+    if not m or not v:
+        return None, None, out
+    return ids_of(m.group(1)), ids_of(v.group(1)), out
+
+
+def jdepth(n):
+    if not n:
+        return 0
+    return 1 + max([jdepth(kv["v"]) for kv in n.get("kv") or []] + [jdepth(x) for x in n.get("l") or []] + [0])
+
+
+def run_json_rows(ck, cases, label):
+    """the json stage's own code (flattening, sanitizeLabel, path walker) = model/InternalJson.v over the jx value tree"""
+    seen, rows, odd = set(), [], 0
+    for c in cases:
+        for r in (c.get("tab") or {}).get("parse") or []:
+            if not r.get("json"):
+                continue
+            key = json.dumps([r.get("params"), r["msg"]], sort_keys=True)
+            if key in seen:
+                continue
+            seen.add(key)
+            if not r.get("plain"):
+                odd += 1          # jx.Skip and the full walk disagree on the line: reported, not compared
+                continue
+            rows.append(r)
+    if not rows:
+        return
+    rows = list(enumerate(rows))
+    m, v, out = eval_json_cases(ck, "C09_%s_json" % label, rows)
+    if m is None:
+        ck.obligation("%s: json rows evaluated inside Coq" % label, False, out[-2500:])
+        return
+    ck.obligation("%s: json stage (nested-key flattening, sanitizeLabel, path walker with array indexes) = model InternalJson.json_decode over the jx value tree on %d distinct (parameters, line) rows" % (label, len(rows)),
+                  not m, "rows %s" % m[:10])
+    ck.obligation("%s: every json parameter label holds what the path finds in the document and nothing else is assigned (jlookup, distinct names) on the observed labels" % label, not v, "rows %s" % v[:10])
+    byi = dict(rows)
+    bad = v or m
+    if bad:
+        r = min((byi[i] for i in bad), key=lambda r: len(r["msg"]))
+        ck.violation({"property": PID, "kind": ("a json parameter label does not hold what its path finds in the line" if v else "model/implementation disagree on the json stage"),
+                      "line": unhex(r["msg"]).decode("utf8", "replace"), "params": r.get("params"), "observed_labels": r.get("kv"), "tree": r.get("tree"),
+                      "replay": "ParserPlanner{Op: json, ParameterNames/Values from params} on the single line (harness inteng Mode json)"}, no_input=not v)
+    h = ck.extra.setdefault("json_rows", {"rows": 0, "with_params": 0, "refused_by_jx": 0, "depth>=3": 0, "skip_walk_disagree": 0, "needs_sanitising": 0, "index_paths": 0})
+    h["rows"] += len(rows)
+    h["skip_walk_disagree"] += odd
+    for _, r in rows:
+        h["with_params"] += bool(r.get("params"))
+        h["refused_by_jx"] += not r.get("tree")
+        h["depth>=3"] += jdepth(r.get("tree")) >= 3
+        h["needs_sanitising"] += any(re.search(rb"[^a-zA-Z0-9_]", k.encode()) for k in (r.get("kv") or {})) or (not r.get("params") and bool(re.search(rb'"[^"]*[^a-zA-Z0-9_"][^"]*"\s*:', unhex(r["msg"]))))
+        h["index_paths"] += any(not x["str"] for p in r.get("params") or [] for x in p["path"])
+
+
 PIPE = {"line_filter": "PLineFilter", "label_filter": "PLabelFilter", "json": "PJson", "json_params": "PJsonParams", "logfmt": "PLogfmt",
         "regexp": "PRegexp", "line_format": "PLineFormat", "label_format": "PLabelFormat", "unwrap": "PUnwrap", "drop": "PDrop"}
 PIPE_STAGES = ("line_filter", "label_filter", "parser", "line_format", "label_format", "unwrap", "drop")
@@ -334,6 +421,8 @@ def load(path):
 
 
 def run_cases(ck, cases, label):
+    run_json_rows(ck, cases, label)
+    cases = [c for c in cases if c.get("mode", "") != "json"]
     chain_cases = [c for c in cases if c.get("mode", "") != "fp"]
     fp_cases = [c for c in cases if c.get("mode", "") == "fp"]
     def ill(f):
@@ -460,14 +549,34 @@ def dead_code_scan(ck):
     ck.obligation("MatrixStepPlanner (unmodelled) has no construction site in reader/", not hits, ", ".join(hits[:5]))
 
 
+def negative_limit_scan(ck):
+    """the spec domain of the limit keeps 0 <= limit: is that what the handlers guarantee?  While QueryRange / Query pass a
+    negative limit on (ClickHouse path: `LIMIT -n` is sent; in process: nothing is forwarded) the recorded finding is printed;
+    once both handlers refuse it the finding is gone (and a handler that loses the refusal again is reported)."""
+    src = open(os.path.join(vcheck.REPO, "reader/controller/queryRangeController.go")).read()
+    refusals = len(re.findall(r"if\s+limit\s*<\s*0\s*\{\s*PromError\(400", src))
+    known = ck.known_findings()
+    if refusals >= 2:
+        ck.obligation("QueryRange and Query refuse a negative limit with 400 before planning", True)
+    elif "negative-limit-not-refused" in known:
+        ck.report_known("negative-limit-not-refused", known["negative-limit-not-refused"][:200])
+    else:
+        ck.obligation("QueryRange and Query refuse a negative limit with 400 before planning", False, "%d of 2 handlers refuse it" % refusals)
+        ck.violation({"property": PID, "kind": "a negative limit reaches the planners: the ClickHouse path sends LIMIT -n, the in-process limit stage forwards nothing",
+                      "request": "/loki/api/v1/query_range?query={a=\"b\"}&start=1700000040000000000&end=1700000340000000000&limit=-5",
+                      "replay": "harness readfuzz --cases (probe/loki_range with limit=-5): status 200 and one statement issued"})
+
+
 def run(ck):
     dead_code_scan(ck)
+    negative_limit_scan(ck)
     ck.trusted += [
         "C09: json/logfmt decoding, text/template rendering, regexp matching and strconv.ParseFloat are oracles (Section variables in the theorems; per-case tables computed by running the real stage / library on each single line in the correspondence); CityHash64 is an oracle",
         "C09: float64 is abstract in the theorems; the correspondence instantiates it with Coq's primitive binary64 floats; generated values keep cross-series sums exact so that Go's unspecified map iteration order cannot change a result",
         "C09: Go maps are not shared between entries on input (the ClickHouse getter builds a fresh map per row); the aggregators share one map among the entries of a series, and the stages after them apply the same idempotent cut to every sharer",
-        "C09: the SQL engine's side of the cross-engine theorems is C07's reference semantics (model/LogqlSem.v run_stages), proved equal to sem_chain on line filter / label filter / json parameters / drop under the decoder link decoders_linked (false for a missing json path: Example decoders_differ_on_a_missing_path); the tie of that reference to the generated SQL is C07's theorem",
-        "C09: the flattening of nested JSON keys, sanitizeLabel and the json-path walker of planner_parser_json.go are inside the decode oracle (per-line table computed by the real stage)",
+        "C09: the SQL engine's side of the cross-engine theorems is C07's reference semantics (model/LogqlSem.v run_stages), proved equal to sem_chain on line filter / label filter / json parameters / drop under the decoder link decoders_linked (no longer false for a missing path or an empty value since /repo 1b5bff2 + 7f68b19: Example missing_path_keeps_the_label_on_both_paths); the tie of that reference to the generated SQL is C07's theorem",
+        "C09: the byte-level JSON decoder (go-faster/jx: Next/Obj/Arr/Str/Raw/Skip) is the oracle that turns a line into a value tree; qryn's own code on the tree (nested-key flattening, sanitizeLabel, the typed path walker) is model/InternalJson.v, tied on every generated (parameters, line) row; lines on which jx.Skip and the full walk disagree are counted, not compared; shared.JsonPathParamToTypedArray (participle grammar) supplies the typed paths; logfmt decoding stays an oracle",
+        "C09: that ClickHouse's JSONType / JSONExtractString / JSONExtractRaw (C07's oracle json_get) and jx read the same text under a path is the remaining hypothesis decoders_linked of the SQL/in-process theorem (a path that ends at an object / array: ClickHouse extracts its raw text, the in-process walker assigns nothing)",
     ]
     ck.coq_props()
     if not ck.go_build("inteng"):
